@@ -19,6 +19,7 @@ import DuckModel.Includes
 import DuckModel.Spec.Inline
 import DuckModel.Lemmas.IncludeLemmas
 import DuckModel.Props.C14Run
+import DuckModel.Props.C14Sdk
 
 namespace Duck
 open Duck.Spec
